@@ -24,7 +24,7 @@ class C19(ProgramProperty):
             "some of the URIs; discover is run on the list, on a shuffled copy and on a shuffled copy with "
             "repetitions; records are read, and with no cutoff every URI is compressed under the result and the "
             "CURIE expanded again (phase 2). Non-trivial = at least two URI prefixes were discovered, one nested in "
-            "the other.")
+            "the other. URIs may start with a delimiter or share stems one of which begins the other; the supplied converter may carry patterns; in 60 % of the cases with a converter it is curated after a discovery run (a merge teaching it a base, or a fresh record) and discovery is run again.")
 
     def budget(self, tier):
         return 2000 if tier == "quick" else 60000
